@@ -366,6 +366,9 @@ def run_arith(repo, rep, prop):
                 continue
             n += 1
             closure, work = set(), list(names_in(test))
+            for nn in ast.walk(test):
+                if isinstance(nn, ast.Attribute) and src(nn) in ('ctx.indent',):
+                    closure.add('ctx.indent')
             while work:
                 x = work.pop()
                 if x in closure:
